@@ -2,6 +2,7 @@
 From Coq Require Import List ZArith QArith Bool.
 From SplipyModel Require Import Model.Num Model.BasisDef Model.BasisEval Model.Knots Model.Tensor Model.Obj Model.Deriv Model.KnotInsert Model.Reparam Model.Affine Model.Tol Model.StateCtx Model.Solve Model.Order Model.Split Model.Periodic Model.WF Model.Ops Model.Identical Model.Append Model.Factory Model.Interp Model.Section Model.Measure Model.Orient Model.Numbering Model.G2 Model.EvalForms Model.Stl Model.Spl Model.Faces Model.Catalogue Model.ConstPar Model.DefaultObj Model.Loft Model.InterpMore Model.Faces2 Gen.CircleNets Gen.DiscSquare.
 From SplipyModel Require Model.OFoam.
+From SplipyModel Require Import Model.IdenticalFix.
 From SplipyModel Require Import Model.SplitSnap.
 From SplipyModel Require Import Model.Handed.
 From SplipyModel Require Import Model.EdgeLoop.
@@ -51,7 +52,7 @@ Definition q_obj_make_periodic := @obj_make_periodic Q NumQ.
 Definition q_obj_lower_periodic (o : obj Q) (t d : nat) := @obj_lower_periodic Q NumQ 64 o t d.
 Definition q_wf_obj_b := @wf_obj_b Q NumQ.
 Definition q_basis_ctor := @basis_ctor Q NumQ.
-Definition q_obj_make_identical := @obj_make_identical Q NumQ.
+Definition q_obj_make_identical := @obj_make_identical2 Q NumQ.
 Definition q_obj_compatible := @obj_compatible Q NumQ.
 Definition q_obj_append := @obj_append Q NumQ.
 Definition q_cs_loop_tab := @cs_loop_tab Q NumQ.
